@@ -212,6 +212,17 @@ def applyHole (d : DD β) (i : Nat) : DD β :=
     { d with files := fun j => if j = f then (d.files f).punch b else d.files j
              pend  := d.pend.eraseIdx i }
 
+/-- The reclaimer applies the first queued request for block `b` of file `f` (if any). -/
+def applyFB (d : DD β) (f b : Nat) : DD β :=
+  match d.pend.idxOf? (f, b) with
+  | some i => d.applyHole i
+  | none   => d
+
+/-- … for a run of `n` blocks starting at `b` (one Go `Hole`). -/
+def applyRun (d : DD β) (f b : Nat) : Nat → DD β
+  | 0     => d
+  | n + 1 => (applyRun d f b n).applyFB f (b + n)
+
 def dropHoles (d : DD β) : DD β := { d with pend := [] }
 
 /-- one block of `preload`: walk the files `1..i`, `cur` = location so far. -/
@@ -250,6 +261,11 @@ def revert (d : DD β) (k : Nat) : DD β :=
 def resize (d : DD β) (nb' : Nat) : DD β := { d with nb := nb' }
 
 def setPunch (d : DD β) (p : Bool) : DD β := { d with punch := p }
+
+/-- File `k` has been folded into `k-1` (what `sfold` establishes and `RemoveDiffDisk` relies on). -/
+def Coalesced (d : DD β) (k : Nat) : Prop :=
+  ∀ u, (d.files k).alloc (u / d.bs) = true →
+    (d.files (k - 1)).alloc (u / d.bs) = true ∧ (d.files (k - 1)).data u = (d.files k).data u
 
 end DD
 end Jiva
